@@ -52,8 +52,8 @@ checks = {
    note="trusted: ceval (uses the systems' exported ToBigInt for coefficients); commitments replaced by a hash for plain Solve calls", ref="§3 C06"),
 
  "C03": dict(cat="exploration", tech="reference-model monitor around the real Setup/Prove/Verify in child processes (crash / hang observed): satisfying assignments from the reference interpreter must prove and verify under consistently set option sets; violating ones must make Prove return an error; C06 solution re-validation on",
-   text="3 (quick) / 7 (thorough) curves x {Groth16, PLONK}: random API programs (incl. no-secret, no-public, all-constant shapes), arithmetic circuits with 0..5 commitments (public-only, secret-only, mixed, over earlier commitments), lookup/range-check/hint scenarios (thorough), option sets {default, SHA-256, Keccak, SHA3, MiMC challenges, statistical ZK, solver task counts}. Observed executions only.",
-   note="MiMC is used for challenge/folding hashes only (it cannot hash arbitrary bytes to the field); PLONK Setup's documented refusal of systems below 2 rows is not a violation; unsafekzg SRS", ref="§3 C03"),
+   text="3 (quick) / 7 (thorough) curves x {Groth16, PLONK}: random API programs (incl. no-secret, no-public, all-constant shapes), arithmetic circuits with 0..5 commitments (public-only, secret-only, mixed, over earlier commitments), lookup/range-check/hint scenarios (thorough), option sets {default, SHA-256, Keccak, SHA3 challenges, statistical ZK, solver task counts}. Observed executions only.",
+   note="a curve's own MiMC is not a valid challenge hash for its proofs (it only accepts canonical scalar-field blocks; G1 coordinates do not fit) and is not used; PLONK Setup's documented refusal of systems below 2 rows is not a violation; unsafekzg SRS", ref="§3 C03"),
 }
 pending = {}
 for i in range(1,21):
